@@ -541,6 +541,48 @@ func c10Listing(u *vfUnit) {
 			sess.Close()
 		}
 	}
+	// attributes as given: owner from the callbacks (over a Stat_t of another owner) together with extended attributes
+	l := &c10ShortLister{per: 10, ents: []os.FileInfo{c10OwnedInfo{c10Info{"both", 77}, 5001, 5002}}}
+	sess, err := vfConnect(vfSrvCfg{Kind: vfRS, H: Handlers{FileList: c10ListHandler{l}}}, vfPipeOpts{})
+	if err != nil {
+		u.Inconclusive("connect: %v", err)
+		return
+	}
+	check := func(what string, fi os.FileInfo, err error) {
+		u.Count("attribute_sets_checked", 1)
+		if err != nil {
+			u.Violation("backward-attrs-owner", fmt.Sprintf("%s: %v", what, err), nil)
+			return
+		}
+		st, _ := fi.Sys().(*FileStat)
+		if st == nil || st.UID != 5001 || st.GID != 5002 || len(st.Extended) != 2 || fi.Size() != 77 {
+			u.Violation("backward-attrs-owner", fmt.Sprintf("%s of a handler FileInfo with Uid()/Gid() 5001:5002 (over a Stat_t owned by 998:997) and 2 extended attributes arrived as %+v", what, st), nil)
+		}
+	}
+	fi, err := sess.C.Stat("/both")
+	check("Stat", fi, err)
+	fi, err = sess.C.Lstat("/both")
+	check("Lstat", fi, err)
+	if ents, err := sess.C.ReadDir("/"); err != nil || len(ents) != 1 {
+		u.Violation("backward-attrs-owner", fmt.Sprintf("ReadDir: %d entries, %v", len(ents), err), nil)
+	} else {
+		check("ReadDir entry", ents[0], nil)
+	}
+	sess.Close()
+}
+
+// c10OwnedInfo: a FileInfo that wraps a local file's Stat_t but reports another owner through
+// FileInfoUidGid (documented precedence: the callbacks) and carries extended attributes.
+type c10OwnedInfo struct {
+	c10Info
+	uid, gid uint32
+}
+
+func (i c10OwnedInfo) Uid() uint32 { return i.uid }
+func (i c10OwnedInfo) Gid() uint32 { return i.gid }
+func (i c10OwnedInfo) Sys() any    { return &syscall.Stat_t{Uid: 998, Gid: 997, Nlink: 2} }
+func (i c10OwnedInfo) Extended() []StatExtended {
+	return []StatExtended{{"user.a", "1"}, {"user.b", ""}}
 }
 
 type c10Info struct {
